@@ -61,6 +61,13 @@ def _jsonable(v):
     return v
 
 
+def _sf(v):
+    try:
+        return float(v)
+    except OverflowError:
+        return float('inf') if v > 0 else float('-inf')
+
+
 def _vals_json(vals):
     return {k: (str(v) if isinstance(v, Fraction) else v) for k, v in vals.items()}
 
@@ -178,7 +185,11 @@ def run_cell(cell, twin=False):
         elif r.kind == 'return' and not twin and env is not None:
             # reachability witness + validation of the encoding at one point of this path
             if res['witness_ok'] + len(res['witness_fail']) < 40:
-                rr, m = c.check()
+                import z3 as _z3
+                bnd = [_z3.And(zv >= -64, zv <= 64) for nm, zv in c.inputs if _z3.is_real(zv)]
+                rr, m = c.check(*bnd) if bnd else c.check()
+                if rr != 'sat':
+                    rr, m = c.check()
                 if rr == 'sat':
                     vals = {nm: S.model_value(m, zv) for nm, zv in c.zvar_by_name.items()}
                     cenv, err = _concrete(cell, vals)
@@ -189,7 +200,7 @@ def run_cell(cell, twin=False):
                     else:
                         res['witness_fail'].append({'path': p['decisions'], 'err': err,
                                                     'failures': cenv.failures[:3],
-                                                    'vals': {k: float(v) for k, v in list(vals.items())[:40]}})
+                                                    'vals': {k: _sf(v) for k, v in list(vals.items())[:40]}})
                 else:
                     res['witness_skipped'] += 1
         if len(res['samples']) < 3 and r.kind in ('return', 'raise', 'event'):
